@@ -81,7 +81,12 @@ impl Display for ErrorEntry<'_> {
 
 impl LocatedError for ErrorEntry<'_> {
     fn span(&self) -> Span {
-        (self.location, 1)
+        // Span the character at the location (and not necessarily one byte) so that the span ends
+        // at a character boundary. The span is empty at the end of the expression.
+        (
+            self.location,
+            self.fragment.chars().next().map_or(0, char::len_utf8),
+        )
     }
 }
 
